@@ -52,7 +52,7 @@ def _read_exact(I, args, pc):
     got = BStr((got.b + [b8(0)] * buf.e.cap)[:buf.e.cap], n)
     newbuf = VStr(bstr.named(bstr.ite(fits, got, buf.e), I.side, "chunk"))
     news = VStruct("Stream", {"bytes": s.fields["bytes"], "pos": VInt(z3.If(fits, pos + n, pos))})
-    ret = VEnum("Result", z3.If(fits, TAG("Result", "Ok"), TAG("Result", "Err")), {"Ok": [VUnit()], "Err": [VUnit()]})
+    ret = VEnum("Result", z3.If(fits, TAG("Result", "Ok"), TAG("Result", "Err")), {"Ok": [VUnit()], "Err": [VEnum("Error", TAG("Error", "IoError"), {})]})
     return Effects(ret, recv=news, args={1: newbuf})
 
 
